@@ -137,19 +137,37 @@ class C19Real(C19):
               b"d8:intervali1800e5:peersld2:ip9:127.0.0.17:peer id20:AAAAABBBBBCCCCCDDDDD4:porti6881eeee",
               b"d8:intervali1e5:peersld2:ip8:10.0.0.17:peer id20:AAAAABBBBBCCCCCDDDDD4:porti1eed2:ip3:bad7:peer id3:xyz4:porti2eed2:ip7:1.2.3.47:peer id20:\x00\xff2345678901234567894:porti65535eeee"]
 
+    def error_page(self, rng):
+        """an HTTP error status with a page of chosen length and content: ASCII, multi-byte UTF-8 characters straddling
+        every offset near the usual truncation points, bytes that are not UTF-8"""
+        n = rng.choice([0, 1, 7, 62, 63, 64, 65, 66, 126, 127, 128, 129, 254, 255, 256, 257, 510, 511, 512, 1023, 1024, 4095, 4096, rng.randrange(0, 300)])
+        ch = rng.choice(["\u00e9", "\u20ac", "\U0001f600", "\u00e9\u20ac\U0001f600"])
+        r = rng.random()
+        if r < 0.25:
+            body = b"e" * n
+        elif r < 0.85:
+            k = rng.randrange(0, 5)
+            body = b"x" * max(0, n - k) + (ch * 8).encode("utf-8")
+        else:
+            body = b"y" * max(0, n - 1) + bytes([rng.choice([0x80, 0xff, 0xc3, 0xe2])]) + b"zz"
+        if rng.random() < 0.3:
+            body = rng.choice([b" ", b"\n", b"\r\n\t"]) + body + rng.choice([b" ", b"\n"])
+        return "%s:%s" % (rng.choice(["500", "404", "503", "400", "403"]), body.hex())
+
     def mkreal(self, script, body, kind):
         return Case("trkreal %s %s" % (",".join(script) or "-", body.hex()), kind, {"script": script, "reply": body[:60].decode("latin1")})
 
     def corpus(self):
         return [self.mkreal([], self.BODIES[1], "real-tracker"), self.mkreal(["refused", "500", "garbage"], self.BODIES[1], "real-tracker"),
+                self.mkreal(["500:" + (b"x" * k + "\u00e9\u20ac\U0001f600".encode("utf-8") * 20).hex() for k in (61, 126)], self.BODIES[1], "real-tracker"),
                 self.mkreal(["drop", "failure", "empty", "404"], self.BODIES[2], "real-tracker")]
 
     def gen(self, rng, tier):
-        k = {"quick": 13, "thorough": 150, "search": 40}.get(tier, 13)
+        k = {"quick": 28, "thorough": 300, "search": 80}.get(tier, 28)
         out = []
         for _ in range(k):
             n = rng.choice([0, 1, 1, 2, 2, 3, 4]) if tier != "thorough" else rng.choice([0, 1, 2, 3, 4, 6, 9])
-            script = [rng.choice(self.OUTCOMES) for _ in range(n)]
+            script = [self.error_page(rng) if rng.random() < 0.45 else rng.choice(self.OUTCOMES) for _ in range(n)]
             script.sort(key=lambda x: x != "refused")       # nothing listens yet: only at the beginning (harness rule)
             out.append(self.mkreal(script, rng.choice(self.BODIES), "real-tracker"))
         return out
@@ -164,7 +182,7 @@ class C19Real(C19):
         b = lambda x: "true" if x else "false"
         return "CReal %d %d %s [%s] [%s] %s %s %s" % (
             len(script), script.count("refused"), coq_bytes(hexb(t[2])),
-            ";".join("true" if x == "R" else "false" for x in cmds if x in ("R", "F")) + (";false;false" if "NONE" in cmds else ""),
+            ";".join(["true" if x == "R" else "false" for x in cmds if x in ("R", "F")] + (["false", "false"] if ("NONE" in cmds or "DEAD" in cmds) else [])),
             "; ".join("(%s, %s)" % (coq_bytes(hexb(a)), coq_bytes(hexb(i))) for a, i in ps),
             o["REQS"], b(o["DONE"] == "1"), b(o["EXTRA"] == "1"))
 
